@@ -6,6 +6,7 @@ import Tranp.Lemmas.SymbolJson
 import Tranp.Lemmas.SymbolJsonExact
 import Tranp.Generated.SymbolTables
 import Tranp.Generated.SymbolDbState
+import Tranp.Generated.SymbolRows
 
 namespace Tranp.C14
 open Tranp Tranp.SymbolJson
@@ -663,6 +664,28 @@ theorem rt_loaded_exact (W : World) (t b : Table) (M : Str) (d : List (Str × Ro
       ∀ kr ∈ d, ∃ s, dictGet? T.items kr.1 = some s ∧ serialize W s = kr.2 :=
   rt_exact W t b M d hM hb hexp (order W t M d rank hM hl hexp) hwf hvia
 
+/-- **Unload, then restore.** `SymbolDB.unload(M)` (db.py:144-156) leaves exactly the table of the other modules, so the export of
+    `M` taken before is imported into the unloaded table without error, every key has its old entry again, and the modules of the
+    imported keys count as completed. -/
+theorem rt_unload_exact (W : World) (t : Table) (M : Str) (d : List (Str × Row)) (rank : Str → Nat) (hM : M ≠ [])
+    (hexp : toJson W t (some M) = .ok d) (hl : Loaded W t M rank)
+    (hwf : ∀ K s, dictGet? t.items K = some s → modOf K = M → SymOK W t s)
+    (hvia : ∀ K s, dictGet? t.items K = some s → modOf K = M → ViaOK W t s) :
+    ∃ T, importJson W (t.unload M) d = .ok T ∧ (∀ K, dictGet? T.items K = dictGet? t.items K) ∧
+      ∀ kr ∈ d, T.isCompleted (modOf kr.1) = true := by
+  obtain ⟨T, hT, hkey, _⟩ := rt_loaded_exact W t (t.unload M) M d rank hM rfl hexp hl hwf hvia
+  exact ⟨T, hT, hkey, completed W (t.unload M) T d hT⟩
+
+/-- non-vacuity: the example table, unloaded and restored -/
+example :
+    (match toJson Ex.W Ex.ordered (some Ex.M) with
+      | .ok d =>
+        (match importJson Ex.W (Ex.ordered.unload Ex.M) d with
+          | .ok T => decide (T.items = Ex.ordered.items ∧ T.isCompleted Ex.M = true)
+          | .error _ => false)
+      | .error _ => false) = true := by
+  decide +kernel
+
 /-- non-vacuity: every entry of the example table satisfies `ViaOK` (its round trip is the example after `rt_loaded`: the imported
     table has the items of the original one) -/
 example : (Ex.ordered.items.all (fun ks => viaOKb Ex.W Ex.ordered ks.2)) = true ∧
@@ -704,5 +727,45 @@ theorem shipped_rt_exact (M : Str) (hM : M ∈ modules) (b : Table) (d : List (S
   obtain ⟨h1, h2, h3⟩ := shipped_invariants M hM
   exact rt_loaded_exact world table b M d rank h1 hb hexp h2 (symOK_of_check world table M h3)
     (viaOK_of_check world table M (shipped_via M hM))
+
+/-! ### the row schema and the expressions the model cites, generated from the source on every run -/
+
+/-- the keys of a row as the model has them (constructor fields of `Row`, serialization.py:6-7 without the `class` tag) -/
+def rowFieldNames : Row → List Str
+  | .symbol _ _ => [['t', 'y', 'p', 'e', 's'], ['a', 't', 't', 'r', 's']]
+  | .reflection _ _ _ _ _ => [['n', 'o', 'd', 'e'], ['d', 'e', 'c', 'l'], ['o', 'r', 'i', 'g', 'i', 'n'], ['v', 'i', 'a'], ['a', 't', 't', 'r', 's']]
+
+open Tranp.Generated.SymbolRows in
+/-- **The rows of the code are the rows of the model** (generated from the AST of serializer.py / sequence.py on every run by
+    translate/gen_symbol_rows.py, which fails on a row key that is not a literal, a row used whole, a second `return`, another
+    ordering call): `serialize` writes the `class` tag and exactly the fields of `Row.symbol` / `Row.reflection`; `deserialize`
+    reads exactly those fields back (nothing written is ignored, nothing else is read); each value is the expression the model's
+    `serialize` cites (node DSNs by `ModuleDSN.full_joined`, `origin` = `types.fullyname`, `via` = `via.types.fullyname`, `attrs` =
+    path ↦ `types.fullyname` over `seqs.expand(symbol.attrs, iter_key='attrs')`); the class test is `Sym.isClassSymbol`; the restored
+    `via` is `db[via]` unless it is the origin key; the paths are ordered by `sorted(…, key = number of dots)` (`sortByDepth`,
+    `C14.sort_spec`); `seqs.expand` descends whenever the entry has the iterator attribute (no depth or identity condition). -/
+theorem row_schema_generated :
+    symbolRow.map Prod.fst = ['c', 'l', 'a', 's', 's'] :: rowFieldNames (.symbol [] []) ∧
+    reflectionRow.map Prod.fst = ['c', 'l', 'a', 's', 's'] :: rowFieldNames (.reflection [] [] [] [] []) ∧
+    symbolReads = rowFieldNames (.symbol [] []) ∧
+    reflectionReads = rowFieldNames (.reflection [] [] [] [] []) ∧
+    symbolRow.map Prod.snd = [['\'', 'S', 'y', 'm', 'b', 'o', 'l', '\''],
+      ['M', 'o', 'd', 'u', 'l', 'e', 'D', 'S', 'N', '.', 'f', 'u', 'l', 'l', '_', 'j', 'o', 'i', 'n', 'e', 'd', '(', 's', 'y', 'm', 'b', 'o', 'l', '.', 't', 'y', 'p', 'e', 's', '.', 'm', 'o', 'd', 'u', 'l', 'e', '_', 'p', 'a', 't', 'h', ',', ' ', 's', 'y', 'm', 'b', 'o', 'l', '.', 't', 'y', 'p', 'e', 's', '.', 'f', 'u', 'l', 'l', '_', 'p', 'a', 't', 'h', ')'],
+      attrsName] ∧
+    reflectionRow.map Prod.snd = [['\'', 'R', 'e', 'f', 'l', 'e', 'c', 't', 'i', 'o', 'n', '\''],
+      ['M', 'o', 'd', 'u', 'l', 'e', 'D', 'S', 'N', '.', 'f', 'u', 'l', 'l', '_', 'j', 'o', 'i', 'n', 'e', 'd', '(', 's', 'y', 'm', 'b', 'o', 'l', '.', 'n', 'o', 'd', 'e', '.', 'm', 'o', 'd', 'u', 'l', 'e', '_', 'p', 'a', 't', 'h', ',', ' ', 's', 'y', 'm', 'b', 'o', 'l', '.', 'n', 'o', 'd', 'e', '.', 'f', 'u', 'l', 'l', '_', 'p', 'a', 't', 'h', ')'],
+      ['M', 'o', 'd', 'u', 'l', 'e', 'D', 'S', 'N', '.', 'f', 'u', 'l', 'l', '_', 'j', 'o', 'i', 'n', 'e', 'd', '(', 's', 'y', 'm', 'b', 'o', 'l', '.', 'd', 'e', 'c', 'l', '.', 'm', 'o', 'd', 'u', 'l', 'e', '_', 'p', 'a', 't', 'h', ',', ' ', 's', 'y', 'm', 'b', 'o', 'l', '.', 'd', 'e', 'c', 'l', '.', 'f', 'u', 'l', 'l', '_', 'p', 'a', 't', 'h', ')'],
+      ['s', 'y', 'm', 'b', 'o', 'l', '.', 't', 'y', 'p', 'e', 's', '.', 'f', 'u', 'l', 'l', 'y', 'n', 'a', 'm', 'e'],
+      ['s', 'y', 'm', 'b', 'o', 'l', '.', 'v', 'i', 'a', '.', 't', 'y', 'p', 'e', 's', '.', 'f', 'u', 'l', 'l', 'y', 'n', 'a', 'm', 'e'],
+      attrsName] ∧
+    expandCall = ['s', 'e', 'q', 's', '.', 'e', 'x', 'p', 'a', 'n', 'd', '(', 's', 'y', 'm', 'b', 'o', 'l', '.', 'a', 't', 't', 'r', 's', ',', ' ', 'i', 't', 'e', 'r', '_', 'k', 'e', 'y', '=', '\'', 'a', 't', 't', 'r', 's', '\'', ')'] ∧
+    attrsValue = ['{', 'p', 'a', 't', 'h', ':', ' ', 'a', 't', 't', 'r', '.', 't', 'y', 'p', 'e', 's', '.', 'f', 'u', 'l', 'l', 'y', 'n', 'a', 'm', 'e', ' ', 'f', 'o', 'r', ' ', 'p', 'a', 't', 'h', ',', ' ', 'a', 't', 't', 'r', ' ', 'i', 'n', ' ', 'f', 'l', 'a', 't', '_', 'a', 't', 't', 'r', 's', '.', 'i', 't', 'e', 'm', 's', '(', ')', '}'] ∧
+    classTest = ['s', 'y', 'm', 'b', 'o', 'l', '.', 'n', 'o', 'd', 'e', '.', 'i', 's', '_', 'a', '(', 'd', 'e', 'f', 's', '.', 'C', 'l', 'a', 's', 's', 'D', 'e', 'f', ')', ' ', 'a', 'n', 'd', ' ', 's', 'y', 'm', 'b', 'o', 'l', '.', 't', 'y', 'p', 'e', 's', ' ', '=', '=', ' ', 's', 'y', 'm', 'b', 'o', 'l', '.', 'd', 'e', 'c', 'l'] ∧
+    rowTest = ['d', 'a', 't', 'a', '[', '\'', 'c', 'l', 'a', 's', 's', '\'', ']', ' ', '=', '=', ' ', '\'', 'S', 'y', 'm', 'b', 'o', 'l', '\''] ∧
+    viaExpr = ['d', 'b', '[', 'd', 'a', 't', 'a', '[', '\'', 'v', 'i', 'a', '\'', ']', ']', ' ', 'i', 'f', ' ', 'd', 'a', 't', 'a', '[', '\'', 'o', 'r', 'i', 'g', 'i', 'n', '\'', ']', ' ', '!', '=', ' ', 'd', 'a', 't', 'a', '[', '\'', 'v', 'i', 'a', '\'', ']', ' ', 'e', 'l', 's', 'e', ' ', 'N', 'o', 'n', 'e'] ∧
+    sortCall = ['s', 'o', 'r', 't', 'e', 'd', '(', 'd', 'a', 't', 'a', '_', 'a', 't', 't', 'r', 's', '.', 'k', 'e', 'y', 's', '(', ')', ',', ' ', 'k', 'e', 'y', '=', 'l', 'a', 'm', 'b', 'd', 'a', ' ', 'k', 'e', 'y', ':', ' ', 'k', 'e', 'y', '.', 'c', 'o', 'u', 'n', 't', '(', '\'', '.', '\'', ')', ')'] ∧
+    expandGuard = ['i', 't', 'e', 'r', '_', 'k', 'e', 'y', ' ', 'a', 'n', 'd', ' ', 'h', 'a', 's', 'a', 't', 't', 'r', '(', 'e', 'n', 't', 'r', 'y', ',', ' ', 'i', 't', 'e', 'r', '_', 'k', 'e', 'y', ')'] ∧
+    expandDispatch = [['t', 'y', 'p', 'e', '(', 'e', 'n', 't', 'r', 'y', ')', ' ', 'i', 's', ' ', 'l', 'i', 's', 't'], ['t', 'y', 'p', 'e', '(', 'e', 'n', 't', 'r', 'y', ')', ' ', 'i', 's', ' ', 'd', 'i', 'c', 't']] := by
+  decide +kernel
 
 end Tranp.C14
